@@ -1,4 +1,4 @@
-#!/usr/bin/env python3
+#!/usr/bin/env python3-vt
 """Writes /verif/MANIFEST.json from the table below and validates it against the schema."""
 import json, sys, os
 
@@ -19,6 +19,46 @@ BUILT = {
          "Both parsers run on every input of the stated spaces; the superset clause, the prefix clause and the conversion laws are evaluated on every accepted value. Differential, so no oracle is trusted for the first clause.",
          "The prefix clause uses the reference recogniser only to decide which inputs are well-formed locale strings.",
          "DESIGN.md §4 C13"),
+ "C06": ("E4 complete product enumeration (CLDR universe)",
+         "complete enumeration of all CLDR entries and of the whole L x S x R subtag universe, run on the real lookup, compared with a dictionary reference",
+         "All 8218 CLDR entries and every (language, script, region) triple of the universe of subtags occurring in likelySubtags.json (plus absent and unknown representatives, about 3.1e8 triples) go through likelysubtags::maximize and are compared with a dictionary reference built from the JSON text; the in-place API is compared on a sub-universe. The space is finite and enumerated completely in both tiers.",
+         "Trusted: data/likelySubtags.json as the CLDR source; unknown subtags of one kind behave alike (binary-search miss).",
+         "DESIGN.md §4 C06"),
+ "C07": ("E4 complete product enumeration (CLDR universe)",
+         "complete enumeration of the L x S x R universe and of a sub-universe x variant lists x extension sets, algebraic laws checked on the real maximize",
+         "Every triple of the universe is maximised and the laws (given subtags kept, all three present, bool result, idempotence, false => unchanged) are evaluated; variants and extensions are checked bit-identical on a sub-universe x 3 variant lists x 4 extension sets through LanguageIdentifier::maximize and Locale.id.maximize.",
+         "No reference data needed (algebraic). Variant/extension independence is explored on the sub-universe only.",
+         "DESIGN.md §4 C07"),
+ "C08": ("E4 complete product enumeration (CLDR universe)",
+         "complete enumeration of the L x S x R universe, algebraic laws plus dictionary reference for the chosen form, run on the real minimize",
+         "Every triple of the universe is minimised; meaning preservation, subtag containment, no-lengthening, first-of-three choice, min(max(x)) = min(x) at return level, idempotence and false => unchanged are evaluated, and the chosen form is compared with the reference three-trial rule over the dictionary; variants/extensions on a sub-universe.",
+         "C08's law min(max(x)) = min(x) is read at the level of the function result (DESIGN §6.1).",
+         "DESIGN.md §4 C08"),
+ "C09": ("E1 token tree x transformation group + E2 skeleton group permutations",
+         "bounded-exhaustive enumeration of inputs and of all their case/separator/order transformations, metamorphic comparison of the real parser's results",
+         "For every input of the token trees, every per-letter case mask (<= 10 letters) or per-token style assignment and every separator mask is generated; for every skeleton every permutation/duplication of each unordered group and both u/t orders. Both members of each pair go through Locale::from_bytes (and LanguageIdentifier::from_bytes) and must both fail or be equal with identical to_string.",
+         "No reference model: the pairs are the oracle. Bounded by token depth and group size.",
+         "DESIGN.md §4 C09"),
+ "C11": ("E4 complete product enumeration (identifier pairs)",
+         "complete enumeration of all ordered pairs of a 384-identifier domain x 4 flag pairs x extension settings, real matches() against the field-wise formula",
+         "All 384^2 ordered pairs x 4 flag pairs for LanguageIdentifier::matches and Language::matches, and the same pairs wrapped in Locales with 5x5 extension settings for Locale::matches and AsRef matching, compared with the field-wise formula and the derived laws.",
+         "Domain: 4 languages incl. und x 4 scripts incl. none x 4 regions incl. none x 6 variant lists.",
+         "DESIGN.md §4 C11"),
+ "C14": ("E4 complete product enumeration (CLDR layout locales, universe) in two builds",
+         "complete enumeration of all 710 CLDR layout locales and of the L x S x R universe in builds with and without likelysubtags, compared with a model derived from the layout JSON",
+         "All 710 locales under data/cldr-misc-full/main and all universe triples are run through character_direction in the likelysubtags build and in the feature-less build (a second binary), against directions derived from the layout JSON files.",
+         "Trusted: the layout.json files; the base build is a separate binary of the same checker source.",
+         "DESIGN.md §4 C14"),
+ "C15": ("E4 byte-string products + substitution neighbourhoods",
+         "complete enumeration of all byte strings of length <= 3, boundary-class strings to length 9 and all single-byte substitutions of valid subtags, real constructors against the four UTS #35 predicates",
+         "Every byte string of length 0-3 (16.8 million), every boundary-alphabet string of length 4-6 and 7-9 (reduced alphabet) and every single-byte substitution of valid subtags goes to the four subtag constructors (from_bytes, FromStr, TryFrom) and is compared with the reference predicates; accepted values are checked for normalised text through as_str/Display/== &str; the raw integer round trip (C17) rides along.",
+         "Thorough adds all 2^32 strings of length 4.",
+         "DESIGN.md §4 C15"),
+ "C18": ("E4 complete enumeration of compiled table entries + generator re-run",
+         "complete enumeration of every entry of the compiled tables (read through the cfg hook) against a re-derivation from the CLDR JSON; generators re-run and diffed",
+         "Every entry of the six likely-subtags tables and four direction arrays is read from the compiled statics via the cfg(unic_locale_verif) re-export and compared with the JSON-derived dictionary: exactly one entry per key, correct value, strict order in the binary-search key order, well-formed canonical-case subtags, CLDR version; both generator binaries are re-run and their tokenised output compared with the checked-in files.",
+         "Trusted: the JSON data files. Needs the add-only hook commit in /repo.",
+         "DESIGN.md §4 C18"),
 }
 
 def main():
